@@ -339,6 +339,20 @@ func projectDisp(s *vt.Sched, j int, qid string) ([]string, bool) {
 	runner := -1
 	guardA := map[int]string{}
 	guardC := map[int]string{}
+	// structure of the barrier code, checked here because the theorems assume it:
+	// WaitUntilFinished evaluates its condition holding the worker mutex, reads the queue lengths
+	// before curProcessing; Broadcast is issued under the worker mutex
+	mxHolder := -1
+	mxObj := 0
+	wufStatus := map[int]string{} // thread -> status loaded by the condition being evaluated
+	wufSeenLen := map[int]bool{}
+	recheckDone := func(t int) bool {
+		switch tstate[t] {
+		case tReserved, tFirstStopped, tOkFirst:
+			return false
+		}
+		return true
+	}
 	for idx, ev0 := range s.Log {
 		ev := ev0
 		if tg, ok := tags[idx]; ok {
@@ -367,6 +381,29 @@ func projectDisp(s *vt.Sched, j int, qid string) ([]string, bool) {
 			continue
 		}
 		t := ev.Tid
+		if mxObj == 0 && si.Field == "mx" && strings.HasPrefix(fn, "worker.") && ev.Obj != 0 {
+			mxObj = ev.Obj
+		}
+		if mxObj != 0 && ev.Obj == mxObj {
+			switch ev.Kind {
+			case "lock":
+				mxHolder = t
+			case "unlock":
+				mxHolder = -1
+			}
+		}
+		if ev.Kind == "cwait" && strings.HasPrefix(fn, "worker.") {
+			mxHolder = -1
+		}
+		if ev.Kind == "broadcast" && strings.HasPrefix(fn, "worker.") && mxHolder != t {
+			emit("? Broadcast issued without holding the worker mutex (a waiter between its check and its park can miss it)")
+		}
+		if (ev.Kind == "q:len" || ev.Kind == "ad:len") && wufStatus[t] != "" {
+			wufSeenLen[t] = true
+		}
+		if (ev.Kind == "q:deq" || ev.Kind == "ad:deq") && inPNJ[t] > 0 && !recheckDone(t) {
+			emit("? dispatcher dequeued without completing the status re-check after reserving")
+		}
 		switch {
 		case si.Field == "curProcessing" && ev.Kind == "add":
 			v, _ := strconv.Atoi(ev.Val)
@@ -408,6 +445,12 @@ func projectDisp(s *vt.Sched, j int, qid string) ([]string, bool) {
 			if fn == "worker.goEventLoop" {
 				guardA[t] = ev.Val
 			}
+			if fn == "worker.WaitUntilFinished" {
+				if wufStatus[t] == "1" && !wufSeenLen[t] {
+					emit("? WaitUntilFinished read curProcessing before the queue lengths (a job being dispatched is then in neither)")
+				}
+				wufStatus[t] = ""
+			}
 			emit("curload " + ev.Val)
 		case si.Field == "concurrency" && ev.Kind == "load" && fn == "worker.goEventLoop":
 			guardC[t] = ev.Val
@@ -442,6 +485,13 @@ func projectDisp(s *vt.Sched, j int, qid string) ([]string, bool) {
 				emit("stload " + ev.Val)
 				tstate[t] = tOk // if it saw Stopped the code returns and the deferred decrement follows (unresok)
 			} else {
+				if fn == "worker.WaitUntilFinished" {
+					wufStatus[t] = ev.Val
+					wufSeenLen[t] = false
+					if mxHolder != t {
+						emit("? WaitUntilFinished evaluated its condition without holding the worker mutex")
+					}
+				}
 				emit("stload " + ev.Val)
 			}
 		case si.Field == "status" && strings.HasPrefix(fn, "worker."):
